@@ -170,7 +170,7 @@ def run(C, R):
             R.floor('C08.R2 clear-callers[%s]' % cfg, len(callers), 1)
         # R3: raw duplication / forgetting primitives outside the ring buffer
         bad = ('read', 'read_unaligned', 'read_volatile', 'write', 'copy', 'copy_nonoverlapping', 'forget', 'zeroed',
-               'transmute', 'transmute_copy', 'assume_init', 'assume_init_read', 'uninit', 'replace', 'swap',
+               'transmute', 'transmute_copy', 'assume_init', 'assume_init_read', 'uninit',
                'drop_in_place', 'write_bytes')
         n3 = 0
         for fn, t, cl in scan_calls(F, lambda ci: ci['name'] in bad and (
